@@ -1098,9 +1098,9 @@ class Parser:
         # Store the new defintion
         self.struct_defs[name] = obj
 
-    def check_name(self, name: str):
-        """Check that names start with a letter."""
-        if name == "_RESERVED_":
+    def check_name(self, name: str, allow_reserved: bool = False):
+        """Check that names start with a letter (`_RESERVED_` is a message_defs directive only)."""
+        if allow_reserved and name == "_RESERVED_":
             return
 
         if not name.startswith(tuple(c for c in string.ascii_letters)):
@@ -1110,7 +1110,7 @@ class Parser:
 
     def handle_message_def(self, name: str, mdf: Dict[str, Any]):
         # Check for valid name
-        self.check_name(name)
+        self.check_name(name, allow_reserved=True)
 
         self.check_duplicate_name(
             "message_defs",
